@@ -573,12 +573,14 @@ class Channel(ClosingContextManager):
             old = self.combine_stderr
             self.combine_stderr = combine
             if combine and not old:
-                # copy old stderr buffer into primary buffer
+                # copy old stderr buffer into primary buffer (still holding
+                # the lock, so stderr data arriving meanwhile cannot
+                # overtake it or be left behind: see _feed_extended)
                 data = self.in_stderr_buffer.empty()
+                if len(data) > 0:
+                    self._feed(data)
         finally:
             self.lock.release()
-        if len(data) > 0:
-            self._feed(data)
         return old
 
     # ...socket API...
@@ -1052,10 +1054,14 @@ class Channel(ClosingContextManager):
                 ERROR, "unknown extended_data type {}; discarding".format(code)
             )
             return
-        if self.combine_stderr:
-            self._feed(s)
-        else:
-            self.in_stderr_buffer.feed(s)
+        self.lock.acquire()
+        try:
+            if self.combine_stderr:
+                self._feed(s)
+            else:
+                self.in_stderr_buffer.feed(s)
+        finally:
+            self.lock.release()
 
     def _window_adjust(self, m):
         nbytes = m.get_int()
